@@ -17,6 +17,7 @@ EXTENDS Naturals, FiniteSets, Sequences, TLC, Json
 CONSTANTS CheckBeforeUse, Emit
 
 Faults == {"badlog", "addr-syntax", "addr-inuse", "addr-unassignable", "cache-damaged", "cache-unwritable",
+           "cache-nocreate",   \* the cache directory exists, but no file can be created in it
            "ctrli-missing", "icanhazip"}
 Flags == {"none", "-h", "-print-default-template", "-print-ctrl-i"}
 Exits == {"ctrl-c", "ctrl-d"}
@@ -57,7 +58,7 @@ Step ==
                              ELSE IF CheckBeforeUse THEN Exit("nonzero", "notty")
                              ELSE pc' = "exited" /\ status' = "crash" /\ cause' = "" /\ UNCHANGED raw
        [] pc = "icanhazip"-> IF "icanhazip" \in faults THEN Exit("nonzero", "icanhazip") ELSE Goto("listen")
-       [] pc = "listen"   -> LET lf == faults \cap {"addr-syntax", "addr-inuse", "addr-unassignable", "cache-damaged", "cache-unwritable"} IN
+       [] pc = "listen"   -> LET lf == faults \cap {"addr-syntax", "addr-inuse", "addr-unassignable", "cache-damaged", "cache-unwritable", "cache-nocreate"} IN
                              IF lf # {} THEN \E f \in lf : Exit("nonzero", f) ELSE Goto("serve")
        [] pc = "serve"    -> Exit("zero", how)          \* Ctrl+C / Ctrl+D end a healthy run
 
